@@ -37,7 +37,7 @@ ASSUMPTIONS = [
 ]
 EXHAUSTIVE = False
 
-MODES = ["none", "exact", "up", "down", "half", "double"]
+MODES = ["none", "exact", "up", "down", "half", "double", "zero"]
 GATED = ("Converter", "LinReg", "PSwitch", "PMux", "PLoad", "ILoad", "RLoad")
 
 
@@ -79,6 +79,8 @@ def apply_mode(mode, v, default):
         return v * (1 - 1e-9)
     if mode == "half":
         return v / 2
+    if mode == "zero":
+        return 0.0  # a bound of exactly 0 is a bound (a peak temperature can lie below it)
     return v * 2
 
 
